@@ -30,9 +30,9 @@ type C11Plan struct {
 
 type evRec struct {
 	Hash, Prev, Merkle, State, Work string
-	Height, Version                int32
-	Nonce                          uint32
-	TS                             int64
+	Height, Version                 int32
+	Nonce                           uint32
+	TS                              int64
 }
 
 func recOf(e *domains.HeaderEvent) (evRec, error) {
